@@ -2958,6 +2958,7 @@ impl<'p> Evaluator<'_, 'p> {
         let sum = sum + item_value;
         let index = index + 1;
         if index == array.len() {
+            self.check_number_value(sum, None)?;
             self.value_stack.push(ValueData::Number(sum));
         } else {
             let item_thunk = array[index].view();
@@ -3011,8 +3012,9 @@ impl<'p> Evaluator<'_, 'p> {
         let sum = sum + item_value;
         let index = index + 1;
         if index == array.len() {
-            self.value_stack
-                .push(ValueData::Number(sum / (array.len() as f64)));
+            let avg = sum / (array.len() as f64);
+            self.check_number_value(avg, None)?;
+            self.value_stack.push(ValueData::Number(avg));
         } else {
             let item_thunk = array[index].view();
             self.state_stack
